@@ -707,7 +707,8 @@ func c19Hanging(R *vr.Result, rng *rand.Rand) {
 	os.Mkdir(hooksDir, 0755) //nolint:errcheck
 	log := filepath.Join(root, "log")
 	pidf := filepath.Join(root, "pid")
-	c19Script(hooksDir, "hang.sh", log, 0755, "echo $$ > "+pidf+"; exec sleep 100000")
+	// a stubborn never-ending hook: it ignores the polite signals (ignored dispositions survive exec), only SIGKILL ends it
+	c19Script(hooksDir, "hang.sh", log, 0755, "trap '' TERM INT HUP QUIT; echo $$ > "+pidf+"; exec sleep 100000")
 	sets := ref.CheapSets(rng, 2)
 	st := ovlMkStore(rng, filepath.Join(root, "s"), sets, 1, []ovlUser{{Name: "root", Pw: "rootpw", Admin: true, Set: 1}})
 	verifSetLogging(true)
